@@ -66,7 +66,12 @@ PROPS = {
                     "http.ReadRequest/ReadResponse is sampled on every case; the agreed domain wfMsg is narrower than RFC 7230 (single "
                     "Connection options, reason phrase empty or starting with a letter, every announced trailer sent exactly once with a "
                     "non-empty value — the last restriction is known finding HTTP-TRAILER-STRICT with c07_trailer_strict_counterexample); "
-                    "neighbours of the agreed domain are classified and counted, not judged",
+                    "neighbours of the agreed domain are classified and counted, not judged (except the classes listed as inside the "
+                    "wording: strict trailers, responses that end with their header section). reqSpec/respSpec reuse the model's "
+                    "canonicalKey, value trimming and Trailer-list splitting; errors common to both are visible only to the net/http "
+                    "differential. Delivered-level pipelining is an audited theorem for requests (c07_requests_pipelined) and for responses "
+                    "(c07_responses_pipelined) of the agreed domain. Replies to HEAD that announce a body are outside the property as "
+                    "proved and checked: known finding HTTP-CLIENT-HEAD (the parser is not told the request; patch proposed, not applied)",
             "technique": "Lean 4 proof (compositional, per grammar production, on the byte-at-a-time spec; lifted to the Go-shaped loop in "
                          "any segmentation by the C06 refinement) + three-way differential correspondence"},
         "lean": ["NbioVerif.Properties.C07", "NbioVerif.Lemmas.HttpTables", srcgen.BRIDGE_HTTP], "drivers": ["httpdrv"], "harness": ["hhttp", "hhttp7", "hbody", "hclient"],
@@ -85,10 +90,17 @@ PROPS = {
     },
     "C06": {
         "manifest": {
-            "text": "Lean theorem c06_http (any segmentation = one piece, for every byte string, state table and processor verdict) on a "
-                    "hand-written model of Parser.Parse; the model is tied to the code by differential execution of the real parser on "
-                    "generated (message, segmentation) pairs, and a whole-vs-segmented oracle runs on the implementation alone",
-            "note": "model fidelity is sampled (differential run on every check); ReadLimit entry test excluded by hypothesis",
+            "text": "Lean theorems c06_http_driver / c06_http_driver_limit (any segmentation = one piece, for every byte string, state "
+                    "table and processor verdict) and c06_messages (same messages delivered) on a hand-written model of Parser.Parse, stated "
+                    "for the function the model driver runs (feedAllL: ReadLimit test + checked index loop per call); c06_dlines ties the "
+                    "driver's call-by-call chain (HttpEngine.parseE per D line) to feedAllL, empty reads included. The model is tied to the "
+                    "code by differential execution of the real parser on generated (message, segmentation) pairs, and a "
+                    "whole-vs-segmented oracle runs on the implementation alone",
+            "note": "model fidelity is sampled (differential run on every check); ReadLimit entry test excluded by hypothesis (NoTrip). "
+                    "The url.ParseRequestURI verdict is recorded from the implementation per Parse call and replayed to the model, so a URL "
+                    "rejection and the url event are not independently predicted. The driver's D lines run HttpEngine.parseE once per line; "
+                    "its equality with feedAllL (events, final state and cache, first error, silence afterwards) is the audited lemma "
+                    "chainE_eq_feedAllL / c06_dlines — the step from the driver's IO loop to chainE is by reading the loop",
             "technique": "Lean 4 proof (refinement of the Go-shaped index loop to a byte-at-a-time spec) + differential correspondence"},
         "lean": ["NbioVerif.Properties.C06", "NbioVerif.Lemmas.HttpTables", srcgen.BRIDGE_HTTP], "drivers": ["httpdrv"], "harness": ["hhttp"],
         "facts": [http_tables, srcgen.src_facts],
@@ -102,9 +114,22 @@ PROPS = {
     },
     "C08": {
         "manifest": {
-            "text": "Lean theorems on the same parser model: the Parse loop terminates on every input (fuel never exhausted), retained bytes "
-                    "<= max(ReadLimit, one read); differential correspondence plus panic/bound/after-error oracles on arbitrary and mutated bytes",
-            "note": "model fidelity sampled; panics observed through the parser's recover log line; engine glue after an error modelled as CloseAndClean",
+            "text": "Lean theorems on the same parser model, for the chain of Parse calls the driver runs: the loop terminates on every input "
+                    "(c08_no_hang_chain), no slice/index expression of the loop can panic (c08_no_panic), no callback meets a nil request/response "
+                    "(c08_no_nil_deref_chain), retained bytes <= max(ReadLimit, largest read) along every chain (c08_retained_chain, ReadLimit > 0), "
+                    "body held <= MaxHTTPBodySize (c08_body_bound, c08_body_reader_bound), framing-field validation (c08_content_length(_any), "
+                    "c08_transfer_encoding, c08_trailer_names, c08_chunk_size, c08_chunk_line_grammar, c08_bare_lf_rejected), after the first error "
+                    "nothing further (c08_parseE_silent; engine model of the four readers: c08_engine_*), BodyReader ownership (c08_body_free_once); "
+                    "differential correspondence plus panic / bound / after-error / framing / line-ending oracles on arbitrary and mutated bytes, "
+                    "and real engines in three I/O modes x {plain, TLS}",
+            "note": "model fidelity sampled. Proved panic-free: the four slice/index shapes of the Parse loop and nil request/response in "
+                    "callbacks; every other panic source is total by construction in the model and observed only through the recover log line. "
+                    "Non-blocking readers assume nbio delivers no data callback after CloseWithError (A1, property C03). With ReadLimit = 0 "
+                    "nothing bounds the retained bytes (an oversized Content-Length body is cached whole before OnBody rejects it). The body "
+                    "bound is proved for the model's bodyHeld counter and the BodyReader model; its equality with the sum of OnBody bytes is "
+                    "sampled through held=. Framing theorems are about the validation functions on the recorded field values; that an accepted "
+                    "stream matches the line grammar is checked by c08-framing-rejected / c08-line-endings, not proved. A bare LF inside a "
+                    "request target or version token is rejected by the processor verdicts, which are inputs of the model",
             "technique": "Lean 4 proof (invariants by induction over the input) + differential correspondence"},
         "lean": ["NbioVerif.Properties.C08", "NbioVerif.Lemmas.HttpTables", srcgen.BRIDGE_HTTP], "drivers": ["httpdrv"], "harness": ["hhttp", "hhttpe", "hbody"],
         "facts": [http_tables, srcgen.src_facts],
@@ -114,6 +139,9 @@ PROPS = {
         "rule": "same stream as C06 (random bytes, grammar messages and six+ mutation operators, limits drawn around the sizes); "
                 "non-trivial iff bytes were retained across calls or an error was returned",
         "assumptions": ["a recovered panic is observed through the parser's own log line",
-                        "'nothing after an error' is checked for the engine glue modelled as CloseAndClean on error"],
+                        "'nothing after an error' is checked for the engine glue modelled as CloseAndClean on error",
+                        "A1: a non-blocking connection delivers no data callback after CloseWithError (nbio, property C03); the engine model's "
+                        "non-blocking readers drop reads that arrive on a closed connection on that ground",
+                        "url.ParseRequestURI / http.ParseHTTPVersion verdicts are inputs of the model (recorded from the real processors)"],
     },
 }
